@@ -166,6 +166,31 @@ theorem normal_form (o : Opts) (hm : o.allowMultiLine = false) (s : Str) (d : Do
   simp only [Outcome.ok.injEq] at h'
   rw [h']
 
+/-- **Normal form under `AllowMultiLine` (partial).** With continuation lines the decoder returns
+    documents whose values contain line feeds.  For every such document that satisfies the
+    executable condition `legalMLDocB` (C01 `decode_encode_multiline`), re-encoding gives text that
+    decodes — with `AllowMultiLine`, with or without `AllowInvalidIndents` — to the same tree and
+    re-encodes to the same bytes.  What is missing for the full statement is
+    `decode o s = .ok d → legalMLDocB d = true`; it is false exactly for the known finding
+    (a continuation line directly after an INDI/FAM record line gives the record a value), and
+    instead of being proved it is *evaluated by the model on every document the real decoder
+    returns under `AllowMultiLine`* in each run (`legalml` requests: true everywhere except on the
+    finding's shape, where it is false). -/
+theorem normal_form_multiline_partial (o : Opts) (s : Str) (d : Doc) (_h : decode o s = .ok d)
+    (hl : legalMLDocB d = true) (o' : Opts) (hm' : o'.allowMultiLine = true) :
+    decode o' (encode d) = .ok d ∧
+    (∀ d', decode o' (encode d) = .ok d' → encode d' = encode d) := by
+  have hd := C01.decode_encode_multiline d hl o' hm'
+  refine ⟨hd, ?_⟩
+  intro d' h'
+  rw [hd] at h'
+  simp only [Outcome.ok.injEq] at h'
+  rw [h']
+
+/-- the finding's shape is outside the hypothesis: a record line with a value -/
+example : legalMLDocB ⟨false, [.mk [73, 78, 68, 73] [102, 111, 111] [73, 49] []]⟩ = false := by
+  simp [legalMLDocB, legalMLF, legalMLT, legalHdrMLB, isRecordTag, tINDI, tFAM]
+
 /-! ## The line grammar is the regular expression in the source
 
 `Generated.lineRegex` is translated on every run from the literal given to `regexp.MustCompile`
